@@ -1,5 +1,5 @@
 (* C06 Route parser: total, accepts exactly the grammar, canonical form is a fixpoint. *)
-Require Import Base Route Lexer LexerProofs Parser Grammar SourceFacts.
+Require Import Base Route Lexer LexerProofs LexSteps Parser Grammar Unparse UnparseProofs SourceFacts.
 
 (* --- tie to the source, re-checked on every run against the regenerated gen/SourceFacts.v --- *)
 (* the lexer rule table extracted from internal/route/parser.go IS the table the model interprets *)
@@ -19,10 +19,31 @@ Proof. intros s. destruct (parse s) as [r|]; [left; eauto | right; reflexivity].
 Theorem C06_lexer_preserves_text : forall tbl s ts, lex tbl s = Some ts -> concat (map snd ts) = s.
 Proof. exact lex_text. Qed.
 
-(* C06_exact in full - "parse s = bnf_parse s for every byte string s", with bnf_parse the byte-level
-   recogniser of the documented BNF (Grammar.v), and C06_canonical "parse (render_route r) = Some r
-   for every r in the image of parse" - are NOT proved yet; both are evaluated on every generated
-   string (exhaustively up to a length bound over the token alphabet). *)
+(* --- the grammar: derivations (Unparse.v).  A derivation is a route AST plus the number of blanks after
+   each ':' and ','; [unparse] is the string it spells; [wf_route] says which ASTs are derivable
+   (identifiers non-empty over <char>, regex text non-empty over <any>, non-empty parameter lists, at
+   least one segment, no two adjacent literals). --- *)
+
+(* COMPLETENESS: every string of the grammar is accepted, with any spacing, and the parsed structure
+   is exactly the derivation's (segments, optional marker, literals, bind names, regex text, parameter
+   lists in order) *)
+Theorem C06_accepts_every_derivation : forall sr, wf_route (erase sr) -> parse (unparse sr) = Some (erase sr).
+Proof. exact parse_complete. Qed.
+
+(* the lexer half of it: a derivation lexes to its token list *)
+Theorem C06_lexes_every_derivation : forall sr, Forall wf_segment (erase sr) -> lex std_table (unparse sr) = Some (tokens_of sr).
+Proof. exact lex_unparse. Qed.
+
+(* CANONICAL FORM: rendering a derivable AST spells the derivation with one blank after each ':' and
+   ',', and parses back to the same AST - so rendering the re-parsed route gives the same string *)
+Theorem C06_render_is_canonical_derivation : forall r, Forall wf_segment r -> render_route r = unparse (canon r).
+Proof. exact render_is_unparse. Qed.
+Theorem C06_canonical_fixpoint : forall r, wf_route r -> parse (render_route r) = Some r.
+Proof. exact parse_render. Qed.
+
+(* SOUNDNESS - "parse s = Some r -> wf_route r /\ exists sr, erase sr = r /\ unparse sr = s" - is NOT
+   proved yet; it is evaluated on every generated string against the byte-level recogniser
+   Grammar.bnf_parse (exhaustively up to a length bound over the token alphabet). *)
 
 Example C06_example :
   let s := [47;123;97;58;32;32;47;120;47;44;98;58;32;42;42;125;47;63;99]%N in   (* "/{a:  /x/,b: **}/?c" *)
@@ -37,3 +58,5 @@ Proof. vm_compute. repeat split. Qed.
 Redirect "assum/C06.1" Print Assumptions C06_source_table.
 Redirect "assum/C06.2" Print Assumptions C06_classes.
 Redirect "assum/C06.3" Print Assumptions C06_lexer_preserves_text.
+Redirect "assum/C06.4" Print Assumptions C06_accepts_every_derivation.
+Redirect "assum/C06.5" Print Assumptions C06_canonical_fixpoint.
